@@ -8,6 +8,9 @@ import (
 	"bytes"
 	"encoding/hex"
 	"fmt"
+	"go/ast"
+	"go/parser"
+	"go/token"
 	"io"
 	"os"
 	"strconv"
@@ -75,6 +78,38 @@ func verifRawSegments(data []byte, mtu uint64) (segs []*msgs.DataTransmissionMes
 		segs = append(segs, dtm)
 	}
 	return segs, fmt.Errorf("no EOF after %d segments", len(segs))
+}
+
+// verifSourceInts returns the integer literals (2 <= c <= max) of the package's own non-test source files: sizes at
+// which the code may change its behaviour (buffer sizes, chunk sizes, thresholds). `go test` runs in the package
+// directory, so the files read are the ones of the tree under test.
+func verifSourceInts(max uint64) (cs []uint64) {
+	seen := map[uint64]bool{}
+	ents, err := os.ReadDir(".")
+	if err != nil {
+		return nil
+	}
+	fset := token.NewFileSet()
+	for _, e := range ents {
+		n := e.Name()
+		if !strings.HasSuffix(n, ".go") || strings.HasSuffix(n, "_test.go") {
+			continue
+		}
+		f, err := parser.ParseFile(fset, n, nil, 0)
+		if err != nil {
+			continue
+		}
+		ast.Inspect(f, func(nd ast.Node) bool {
+			if bl, ok := nd.(*ast.BasicLit); ok && bl.Kind == token.INT {
+				if v, err := strconv.ParseUint(bl.Value, 0, 64); err == nil && v >= 2 && v <= max && !seen[v] {
+					seen[v] = true
+					cs = append(cs, v)
+				}
+			}
+			return true
+		})
+	}
+	return
 }
 
 func verifBundle(payloadLen int, r *verifRng) bpv7.Bundle {
@@ -457,6 +492,48 @@ func TestVerifC11(t *testing.T) {
 		fmt.Fprintf(w, "seg %d %s %s\n", m, verifHex(data), verifSegs(segs))
 	}
 
+	// (1b) boundary sizes: lengths and segment sizes around every integer constant of the package's source and
+	// around common buffer sizes (a multiple of the constant, one less, one more; the segment size below, at and
+	// above it) -- where a chunked reader, a pooled buffer or a threshold would change the behaviour
+	cmax, defaults := uint64(8192), []uint64{512, 4096}
+	if thorough {
+		cmax, defaults = 70000, []uint64{256, 512, 1024, 4096, 8192, 65536}
+	}
+	consts := verifSourceInts(cmax)
+	for _, d := range defaults {
+		dup := false
+		for _, c := range consts {
+			dup = dup || c == d
+		}
+		if !dup {
+			consts = append(consts, d)
+		}
+	}
+	fmt.Fprintf(w, "# boundary constants %v\n", consts)
+	donePair := map[[2]uint64]bool{}
+	for _, c := range consts {
+		if c < 100 {
+			continue // covered exhaustively by (1)
+		}
+		for _, l := range []uint64{c, 2 * c, 3 * c, c + 1, c - 1, 2*c + 1} {
+			for _, m := range []uint64{c - 1, c, c + 1, 2 * c, 2*c + 1, c + c/2, l - 1, l, l + 1, l + 2, MaxSegmentMtu} {
+				if m < 1 || donePair[[2]uint64{l, m}] || l/m > 64 {
+					continue
+				}
+				donePair[[2]uint64{l, m}] = true
+				data := make([]byte, l)
+				for j := range data {
+					data[j] = byte(r.next())
+				}
+				segs, e := verifRawSegments(data, m)
+				if e != nil {
+					fmt.Fprintf(w, "# raw error L=%d m=%d: %v\n", l, m, e)
+				}
+				fmt.Fprintf(w, "seg %d %s %s\n", m, verifHex(data), verifSegs(segs))
+			}
+		}
+	}
+
 	// (2) whole bundles through two TransferManagers; payload sizes sweep the encoded length
 	var wg sync.WaitGroup
 	var lmu sync.Mutex
@@ -492,6 +569,28 @@ func TestVerifC11(t *testing.T) {
 				defer func() { <-sem }()
 				emit(verifXfer(b, uint64(m), 8*time.Second))
 			}(b, m)
+		}
+	}
+	// whole bundles whose encoding has exactly a boundary length, sent with a larger segment size (the default)
+	for _, c := range consts {
+		if c < 100 || c > 9000 {
+			continue
+		}
+		for p := int(c) - 120; p > 0 && p <= int(c); p++ {
+			b := verifBundle(p, r)
+			if uint64(len(verifEnc(b))) != c {
+				continue
+			}
+			for _, m := range []uint64{MaxSegmentMtu, c + 1, 2 * c} {
+				wg.Add(1)
+				sem <- struct{}{}
+				go func(b bpv7.Bundle, m uint64) {
+					defer wg.Done()
+					defer func() { <-sem }()
+					emit(verifXfer(b, m, 8*time.Second))
+				}(b, m)
+			}
+			break
 		}
 	}
 	wg.Wait()
